@@ -2,7 +2,7 @@ SPECIFICATION Spec
 CONSTANTS
   Mode = "single"
   NMax = 3
-  Hi = 4
+  Hi = 3
   NSmall = 3
   Stride = 1
   CheckDef = TRUE
